@@ -195,11 +195,17 @@ class Ctx:
                 raise Undecided(unit.name, 'vacuity control: planted falsehood verified at %s' % real_missing)
             self.extra_cov.setdefault('negative_controls', []).append(dict(unit=unit.name, planted=len(want), refuted=len(want & hit), masked=len(missing) - len(real_missing)))
         # assumption scan
+        tlines = text.split('\n')
         for pat in ASSUME_PATTERNS[:5]:
             for m in re.finditer(pat, text):
                 ln = text.count('\n', 0, m.start())
-                line = text.split('\n')[ln].strip()
-                self.assumptions.append('verus unit %s: %s' % (unit.name, line[:160]))
+                line = tlines[ln].strip()
+                if 'external_body' in line and not re.search(r'\bfn\b', line):
+                    # name the function (and its assumed postcondition) the attribute is attached to
+                    nxt = ' '.join(x.strip() for x in tlines[ln + 1:ln + 4])
+                    mm = re.search(r'((?:pub\s+)?(?:const\s+|proof\s+)?fn\s+\w+[^{]*)', nxt)
+                    line = 'external_body (assumed contract): ' + (mm.group(1).strip() if mm else nxt)[:220]
+                self.assumptions.append('verus unit %s: %s' % (unit.name, line[:260]))
         self.assumptions = sorted(set(self.assumptions))
         # witnesses for failures
         for ob in [o for o in self.obligations if o.unit is unit and o.status == 'failed']:
